@@ -328,6 +328,7 @@ func C19() *engine.Check {
 			mk("ciphertext-modifications", "ciphertext-mods", "every single-bit flip of the stored value (nonce, tag and body regions), every truncation length and a 1-byte extension at either end must make decryption fail; non-trivial = all", modLens),
 			c19TokenSub(),
 			c19SeqSub(),
+			c19ReadSeqSub(),
 			c19ConcSub(), concRaceSub("C19"),
 		},
 		Assumptions: []string{
@@ -500,6 +501,140 @@ type c19TokCase struct {
 	Codec string `json:"codec"`
 	Len   int    `json:"len"`
 	AsStr bool   `json:"as_string"`
+}
+
+// ---- read histories on one stored value; plaintexts that are themselves ciphertexts ----
+
+type c19ReadSeqCase struct {
+	Seq   []int `json:"seq"`    // 0 = right key, 1 = other valid key, 2 = right key on a tampered copy, 3 = all-zero key, 4 = bytes accessor with the right key
+	AsStr bool  `json:"as_str"` // the value was added as a string
+}
+
+func (c *c19ReadSeqCase) Weight() int { return len(c.Seq) }
+
+func c19ReadSeqSub() *engine.Sub {
+	return &engine.Sub{
+		Name:   "read-histories",
+		Serial: true,
+		Rule:   "one encrypted value, read three (quick) or four (thorough) times in a row in every combination of {right key, another valid key, right key on a copy with one flipped bit, all-zero key, right key through the other accessor}: every read returns what it returns when it is the only read - plaintext for the right key on the genuine value, an error otherwise - whatever was read before (a successful read must not make a later refused one succeed, a refused one must not poison a later good one). Plus: a []byte / string plaintext that is itself a stored ciphertext under the same key (or another key) is encrypted like any other value; non-trivial = all",
+		Bound: func(t string) string {
+			return fmt.Sprintf("5^%d read sequences x {string, bytes}; 4 ciphertext-as-plaintext cases", tierN(t, 3, 4))
+		},
+		Gen: func(tier string, emit func(any) bool) {
+			n := tierN(tier, 3, 4)
+			tot := 1
+			for i := 0; i < n; i++ {
+				tot *= 5
+			}
+			for _, str := range []bool{false, true} {
+				for x := 0; x < tot; x++ {
+					seq := make([]int, n)
+					y := x
+					for i := range seq {
+						seq[i] = y % 5
+						y /= 5
+					}
+					if !emit(&c19ReadSeqCase{Seq: seq, AsStr: str}) {
+						return
+					}
+				}
+			}
+			for k := 0; k < 4; k++ {
+				if !emit(&c19ReadSeqCase{Seq: []int{-1 - k}}) {
+					return
+				}
+			}
+		},
+		NewCase: func() any { return &c19ReadSeqCase{} },
+		Run: func(ctx *engine.Ctx, c any) {
+			cs := c.(*c19ReadSeqCase)
+			ctx.States(1)
+			ctx.Nontrivial(1)
+			k2 := reverse(c19Key)
+			if len(cs.Seq) == 1 && cs.Seq[0] < 0 {
+				// plaintext = a stored ciphertext
+				inner := meta.NewMeta()
+				ik := c19Key
+				if cs.Seq[0] == -2 || cs.Seq[0] == -4 {
+					ik = k2
+				}
+				if err := inner.AddEncrypted("i", "the inner plaintext 0123456789", ik); err != nil {
+					panic(err)
+				}
+				ct, _ := inner.GetBytes("i")
+				m := meta.NewMeta()
+				var err error
+				if cs.Seq[0] <= -3 {
+					err = m.AddEncrypted("o", string(ct), c19Key)
+				} else {
+					err = m.AddEncrypted("o", ct, c19Key)
+				}
+				ctx.Eval(3)
+				if err != nil {
+					ctx.Failf(cs, "add-fails", "AddEncrypted of a plaintext that is itself a ciphertext fails: %v", err)
+					return
+				}
+				stored, _ := m.GetBytes("o")
+				if len(stored) != len(ct)+40 || bytes.Contains(stored, ct) {
+					ctx.Outcome("stored-in-the-clear")
+					ctx.Failf(cs, "ciphertext-as-plaintext/not-encrypted", "a %d-byte plaintext that is itself a stored ciphertext is stored as %d bytes (want %d) / appears in the stored value: it was not encrypted", len(ct), len(stored), len(ct)+40)
+					return
+				}
+				got, err := m.GetEncryptedBytes("o", c19Key)
+				if err != nil || !bytes.Equal(got, ct) {
+					ctx.Failf(cs, "ciphertext-as-plaintext/roundtrip", "reading it back returns %d bytes, err=%v instead of the %d bytes that were added", len(got), err, len(ct))
+					return
+				}
+				ctx.Outcome("encrypted-like-any-value")
+				return
+			}
+			pt := []byte("a plaintext worth protecting 0123456789")
+			m := meta.NewMeta()
+			if err := c19Add(m, "v", pt, cs.AsStr, c19Key); err != nil {
+				panic(err)
+			}
+			stored, _ := m.GetBytes("v")
+			bad := meta.NewMeta()
+			tam := append([]byte{}, stored...)
+			tam[len(tam)-3] ^= 0x10
+			if err := bad.Add("v", tam); err != nil {
+				panic(err)
+			}
+			for step, op := range cs.Seq {
+				var got []byte
+				var err error
+				wantOK := false
+				switch op {
+				case 0:
+					got, err = c19Get(m, "v", cs.AsStr, c19Key)
+					wantOK = true
+				case 1:
+					got, err = c19Get(m, "v", cs.AsStr, k2)
+				case 2:
+					got, err = c19Get(bad, "v", cs.AsStr, c19Key)
+				case 3:
+					got, err = c19Get(m, "v", cs.AsStr, make([]byte, 32))
+				case 4:
+					got, err = c19Get(m, "v", !cs.AsStr, c19Key)
+					wantOK = true
+				}
+				ctx.Eval(1)
+				ctx.Trans(1)
+				names := []string{"right-key", "other-key", "tampered", "zero-key", "right-key/other-accessor"}
+				if wantOK && (err != nil || !bytes.Equal(got, pt)) {
+					ctx.Outcome("good-read-fails")
+					ctx.Failf(cs, "read-history/good-read-fails-after-earlier-reads", "read #%d (%s) of the sequence %v fails or returns other data: %v", step, names[op], cs.Seq, err)
+					return
+				}
+				if !wantOK && err == nil {
+					ctx.Outcome("refused-read-succeeds")
+					ctx.Failf(cs, "read-history/"+names[op]+"-returns-data-after-earlier-reads", "read #%d (%s) of the sequence %v returns %d bytes of data instead of an error", step, names[op], cs.Seq, len(got))
+					return
+				}
+			}
+			ctx.Outcome("consistent")
+		},
+	}
 }
 
 func c19TokenSub() *engine.Sub {
